@@ -17,6 +17,8 @@ Definition run_case (pn : N) (dom : string) (args : list arg) : list string :=
     match args with [AN x] => run_conv x | _ => bad end
   else if dom =? "conveq" then
     match args with [AN x; AN y] => run_conveq x y | _ => bad end
+  else if dom =? "conveqc" then
+    match args with [AN x; AN y] => run_conveqc x y | _ => bad end
   else if dom =? "elfty" then
     match args with [AN x] => run_elfty x | _ => bad end
   else if dom =? "fb" then
